@@ -630,36 +630,49 @@ fn end_of(start: &gen::Start, actions: &[arimaa_engine_step::Action]) -> Result<
 }
 
 pub fn call_site_check(id: &str, start: &gen::Start, actions: &[arimaa_engine_step::Action], st: &mut Stats) -> Check {
-    let (eng, mo) = match end_of(start, actions) {
-        Ok(x) => x,
-        Err(_) => {
-            st.bump("call_site_case_not_built");
-            return Ok(());
-        }
-    };
+    if end_of(start, actions).is_err() {
+        st.bump("call_site_case_not_built");
+        return Ok(());
+    }
     let mk = registry::observer_for(id).ok_or_else(|| Fail::new("harness", "no observer".into()))?;
-    let (e1, m1, e2, m2) = (eng.clone(), mo.clone(), eng.clone(), mo.clone());
+    // only plain data crosses into the probe thread (the engine's types need not be Send for this
+    // check): the state is built again inside it, once for the warm-up and once in the destructor
+    let plain: Vec<m::MAction> = actions.iter().map(to_maction).collect();
+    let (s1, s2, p1, p2) = (start.clone(), start.clone(), plain.clone(), plain);
+    let build = |s: &gen::Start, p: &[m::MAction]| -> Option<(GameState, Model)> {
+        let acts: Vec<arimaa_engine_step::Action> = p.iter().map(|a| to_action(*a)).collect();
+        end_of(s, &acts).ok()
+    };
     let r = in_tls_destructor(
         move || {
-            let mut obs = mk();
-            let mut s = Stats::default();
-            let _ = obs.on_state(&crate::drive::View::new(&e1, &m1, true), &mut s);
+            if let Some((e1, m1)) = build(&s1, &p1) {
+                let mut obs = mk();
+                let mut s = Stats::default();
+                let _ = obs.on_state(&crate::drive::View::new(&e1, &m1, true), &mut s);
+            }
         },
         move || {
-            let mut obs = mk();
-            let mut s = Stats::default();
-            guard(|| obs.on_state(&crate::drive::View::new(&e2, &m2, true), &mut s))
+            guard(|| {
+                let (e2, m2) = build(&s2, &p2)?;
+                let mut obs = mk();
+                let mut s = Stats::default();
+                Some((obs.on_state(&crate::drive::View::new(&e2, &m2, true), &mut s), m2.fingerprint()))
+            })
         },
     );
     st.eval();
     match r {
-        Some(Ok(Ok(()))) => {
+        Some(Ok(Some((Ok(()), fp)))) => {
             st.bump("states_observed_from_a_thread_local_destructor");
-            st.nontrivial(fp_combine(mo.fingerprint(), 0x715));
+            st.nontrivial(fp_combine(fp, 0x715));
             Ok(())
         }
-        Some(Ok(Err(f))) => Err(Fail::new(&f.clause, format!("(asked from the destructor of a thread-local while the thread exits, after the same queries had been asked normally on that thread) {}", f.detail))),
-        Some(Err(p)) => Err(Fail::new(&format!("{}:panic", id), format!("observing the state from a thread-local destructor panicked: {}", p))),
+        Some(Ok(Some((Err(f), _)))) => Err(Fail::new(&f.clause, format!("(asked from the destructor of a thread-local while the thread exits, after the same queries had been asked normally on that thread) {}", f.detail))),
+        Some(Ok(None)) => {
+            st.bump("call_site_case_not_built");
+            Ok(())
+        }
+        Some(Err(p)) => Err(Fail::new(&format!("{}:panic", id), format!("building or observing the state from a thread-local destructor panicked: {}", p))),
         None => {
             st.bump("thread_local_destructor_probe_did_not_run");
             Ok(())
@@ -983,6 +996,9 @@ fn run_c16(cfg: &RunCfg, stats: &mut Stats, exhaustive: &mut bool, extra: &mut V
         }
     }
     stats.add("strings_from_all_unicode_scalars_in_templates", all_chars);
+    if let Err((f, text)) = c16_dictionary(stats) {
+        return Outcome::Violation(Violation { replay: text_replay("C16", "string", &f, &text, cfg.seed, 0), fail: f });
+    }
     if let Err((f, what)) = c16_boundary_lengths(stats) {
         return Outcome::Violation(Violation { replay: json!({"property": "C16", "kind": "boundary_lengths", "clause": f.clause, "detail": format!("{} [input: {}]", f.detail.chars().take(300).collect::<String>(), what)}), fail: Fail::new(&f.clause, format!("{} [input: {}]", f.detail.chars().take(300).collect::<String>(), what)) });
     }
